@@ -34,7 +34,13 @@ RULE = ("cases = (operation, valid NFA operand(s)); corpus of past defects (F6, 
         "empty language with a single non-final state, universal, disjoint / overlapping alphabets, overlapping "
         "names, ε-only, states without rows, empty target sets, rows keyed by non-states; live 'dense' operands and "
         "operands with extra final states so that about half of the results are non-empty; the SAME OBJECT on both "
-        "sides (A + A, A & A, …) exhaustively for small A and at random; empty-alphabet operands) and random expression "
+        "sides (A + A, A & A, …) exhaustively for small A and at random; empty-alphabet operands; round 4: state names "
+        "EQUAL ACROSS TYPES — naturals written as float / Fraction / Decimal / complex / bool, single-type and mixed pools, "
+        "with gaps — under all operations and in compositions; the mutable-automata option: live operands built under "
+        "allow_mutable_automata=True from plain / ALIASED (one set object for equal target sets, final_states is states, "
+        "shared rows) / copied containers, SEQUENCES of 3–8 operations and reads on the same objects incl. earlier "
+        "results, operands that use few target sets in many places under the quotients, every result judged against the "
+        "definitions AS BUILT) and random expression "
         "trees of depth ≤3 whose intermediate real results are fed back as operands; a case is non-trivial when "
         "every operand has ≥2 states and the result language is neither empty nor universal up to the word "
         "bound; distinct = distinct (operation, operand definitions)")
@@ -43,6 +49,13 @@ ASSUMPTIONS = [
     "Python set/dict semantics are modelled (lists / association lists); the iteration order of the operand "
     "state sets is sent to the model (it determines the names chosen by _get_state_maps)",
     "isinstance(other, NFA) tests and the global option should_validate_automata=False are outside the model",
+    "mutable-automata option (round 4): allow_mutable_automata=True only changes the container types the constructor "
+    "stores; the property is read as 'the result has the textbook language of the definitions the operands were built "
+    "with, whatever was called on the objects before' — judged against frozen twins; the model is asked only while the "
+    "live operands still have those definitions (stat mutable_option_definition_changed otherwise)",
+    "names equal across types (round 4): 0, 0.0, False, Fraction(0), Decimal(0), 0j are one key of a Python set; the "
+    "wire format sends every such name as the natural number it equals (nfaops_lib.nat_of), which is how the model's "
+    "first-unused-natural search sees it",
 ]
 EXPLANATION = ("Theorems C08_* state, for every pair of valid NFAs, that the model of each operation returns a "
                "valid NFA (no error branch) with the textbook language; this run ties the model to the code by "
